@@ -349,6 +349,16 @@ let rawblock_line line =
   | M.RErr _ -> "err"
   | M.RPanic _ -> "panic"
 
+(* fsenorm <max_log> <avoid 0|1> <c0,c1,...> : the normaliser model *)
+let fsenorm_line line =
+  match List.filter (fun x -> x <> "") (split_on ' ' line) with
+  | [ml; av; cs] ->
+    (match M.norm_counts (List.map z_of_string (split_on ',' cs)) (z_of_string ml) (av <> "0") with
+     | M.ROk (al, probs) -> Printf.sprintf "ok %s %s" (z_to_string al) (String.concat "," (List.map z_to_string probs))
+     | M.RErr _ -> "err"
+     | M.RPanic _ -> "panic")
+  | _ -> "bad"
+
 (* blocks <body-hex> ... : the compressed blocks of one frame in order; each is taken apart by the decoder model
    (carrying the Huffman table along) and written again by the encoder models; per block: side conditions, identical *)
 let blocks_line line =
@@ -412,6 +422,7 @@ let () =
     | "seqsection" -> seqsection_line
     | "rawblock" -> rawblock_line
     | "blocks" -> blocks_line
+    | "fsenorm" -> fsenorm_line
     | "fastblock" -> fastblock_line
     | "hufstream" -> hufstream_line
     | "hufdec" -> hufdec_line
